@@ -154,45 +154,45 @@ class World:
         """Run one user call; returns (outcome, return value, exception text)."""
         sm = self.sm
         op = ev["op"]
+        # arguments are built outside the try block: a harness error must never count as a rejection by the code
+        key = self.vkey(ev["vk"]) if "vk" in ev else None
+        pos = self.pos[ev["lp"]] if ev.get("lp") else None
+        amt = {k: dec(ev[k]) for k in ("dep", "mint", "rate", "a", "b", "w") if k in ev}
+        if op not in ("odm", "rate", "deposit", "bw", "lpdep", "lpwd", "update"):
+            raise ValueError(op)
         try:
             if op == "odm":
-                ret = sm.open_deposit_mint(dec(ev["dep"]), dec(ev["mint"]), self.vkey(ev["vk"]),
-                                           self.pos[ev["lp"]] if ev["lp"] else None)
+                ret = sm.open_deposit_mint(amt["dep"], amt["mint"], key, pos)
                 return "ok", (ret[0].id, frac(ret[1])), None
             if op == "rate":
-                ret = sm.open_deposit_mint_by_collat_rate(dec(ev["dep"]), dec(ev["rate"]), self.vkey(ev["vk"]),
-                                                          self.pos[ev["lp"]] if ev["lp"] else None)
+                ret = sm.open_deposit_mint_by_collat_rate(amt["dep"], amt["rate"], key, pos)
                 return "ok", (ret[0].id, frac(ret[1])), None
             if op == "deposit":
-                sm.deposit(self.vkey(ev["vk"]), dec(ev["a"]))
+                sm.deposit(key, amt["a"])
             elif op == "bw":
-                sm.burn_and_withdraw(self.vkey(ev["vk"]), dec(ev["b"]), dec(ev["w"]))
+                sm.burn_and_withdraw(key, amt["b"], amt["w"])
             elif op == "lpdep":
-                sm.deposit_uni_position(self.vkey(ev["vk"]), self.pos[ev["lp"]])
+                sm.deposit_uni_position(key, pos)
             elif op == "lpwd":
-                sm.withdraw_uni_position(self.vkey(ev["vk"]), self.pos[ev["lp"]])
+                sm.withdraw_uni_position(key, pos)
             elif op == "update":
                 sm.update()
-            else:
-                raise ValueError(op)
             return "ok", None, None
         except Exception as e:  # any exception = rejection (class/message recorded, never compared)
             return "reject", None, f"{type(e).__name__}: {e}"
 
 
-def dec(q: Fraction) -> Decimal:
-    """exact Decimal of a finite-decimal rational (amount alphabets have <= 6 places)"""
+def dec(q) -> Decimal:
+    """exact Decimal of a finite-decimal rational (built from digits: no context rounding)"""
     q = Fraction(q)
-    d = q.denominator
-    k = 0
-    while d % 10 == 0:
-        d //= 10
+    k, p = 0, 1
+    while p % q.denominator:
+        p *= 10
         k += 1
-    # denominators of the alphabets are 2^a 5^b: scale to a power of ten
-    scale = 10 ** 40
-    if (q * scale).denominator != 1:
-        raise ValueError(f"not a finite decimal: {q}")
-    return (D(int(q * scale)) / D(scale)).normalize() if q != 0 else D(0)
+        if k > 60:
+            raise ValueError(f"not a finite decimal: {q}")
+    m = q.numerator * (p // q.denominator)
+    return Decimal((0 if m >= 0 else 1, tuple(int(c) for c in str(abs(m))), -k))
 
 
 # ---------------------------------------------------------------------------------------------------------------
@@ -878,10 +878,10 @@ def _chdir_scratch(tmp):
 
 
 def work_graph(args):
-    tab, nk, labels, paths, tmp = args
+    tab, nk, labels, paths, tmp, done = args
     _chdir_scratch(tmp)
     ctx, col = Ctx(tab, nk), Col()
-    parsed, verified, failed = {}, set(), set()
+    parsed, verified, failed = {}, set(done), set()
     for p in paths:
         if any(n in failed for n in p):
             col.count("info/paths_cut_by_earlier_stop")
@@ -892,7 +892,41 @@ def work_graph(args):
         cut = replay_exact(col, [parsed[n] for n in p], ctx, verified, p)
         if cut is not None:
             failed.add(p[cut])
-    return col
+            verified.discard(p[cut])
+    return col, verified - set(done), failed
+
+
+def replay_graph(chk: Check, tab, nk, nodes, edges, init, paths, scratch):
+    """Replay root->leaf paths in worker processes.  A path is cut where the code leaves the spec without violating the
+    property (band, rejection where the spec accepts, C04 matter); nodes behind a cut are then reached by another route of
+    the graph (same state, other history) if there is one, so that an early divergence does not hide later edges."""
+    verified, failed = set(), set()
+    for rnd_no in range(4):
+        if not paths:
+            break
+        n = max(1, min(64, len(paths) // 50))
+        size = (len(paths) + n - 1) // n
+        items = []
+        for i in range(0, len(paths), size):
+            chunk = paths[i:i + size]
+            need = {x for p in chunk for x in p}
+            items.append((tab, nk, {x: nodes[x] for x in need}, chunk, scratch, {x for x in need if x in verified}))
+        for col, ver, fail in pool_map(work_graph, items):
+            col.merge_into(chk)
+            verified |= ver
+            failed |= fail
+        missing = set(nodes) - verified - failed
+        if not missing or not failed:
+            break
+        keep = {x: None for x in nodes if x not in failed}
+        g = tlc.Graph(keep, [(a, b, "") for a, b in edges if a in keep and b in keep], [i for i in init if i in keep])
+        alt = [p for p in g.bfs_paths() if any(x in missing for x in p)]
+        # cut each alternative path after its last missing node
+        paths = sorted({tuple(p[:max(i for i, x in enumerate(p) if x in missing) + 1]) for p in alt})
+        paths = [list(p) for p in paths]
+        chk.extra.setdefault("rerouted_paths", []).append(len(paths))
+    chk.extra["graph_nodes_unverified"] = chk.extra.get("graph_nodes_unverified", 0) + len(set(nodes) - verified - failed)
+    chk.extra["graph_nodes_where_path_stopped"] = chk.extra.get("graph_nodes_where_path_stopped", 0) + len(failed)
 
 
 def parse_sim_file(f):
@@ -1002,15 +1036,7 @@ def run(chk: Check) -> int:
         if len(paths) > budget:
             chk.exhaustive = False
             paths = sorted(rnd.sample(paths, budget))
-        n = max(1, min(64, len(paths) // 50))
-        size = (len(paths) + n - 1) // n
-        items = []
-        for i in range(0, len(paths), size):
-            chunk = paths[i:i + size]
-            need = {x for p in chunk for x in p}
-            items.append((tab, nk, {x: nodes[x] for x in need}, chunk, scratch))
-        for col in pool_map(work_graph, items):
-            col.merge_into(chk)
+        replay_graph(chk, tab, nk, nodes, edges, init, paths, scratch)
         del nodes, edges
 
     # 3. whole back-tests through the Actuator: TLC simulation in BarMode, live TWAP
@@ -1040,7 +1066,7 @@ def run(chk: Check) -> int:
             shutil.copy(VERIF / "spec" / "trace" / f, td / f)
         (td / "TwapObs.tla").write_text(twap_obs_module(obs))
         res = tlc.run(td / "Trace_SqueethTwap.tla", td / "Trace_SqueethTwap.cfg", chk.tmp, workers=1, timeout=600)
-        m = re.search(r'<<"twap_bad", (\{[^}]*\}), (\d+)>>', res.output)
+        m = re.search(r'<<\s*"twap_bad",\s*(\{[^}]*\}),\s*(\d+)\s*>>', res.output)
         if not m:
             raise RuntimeError("trace validation of TWAP observations printed no verdict")
         bad = sorted(tlaval.parse(m.group(1)))
@@ -1077,7 +1103,7 @@ def replay(chk: Check, path: str) -> int:
         g = frac(sm.get_twap_price(weth if r["token"] == "eth" else osqth))
         (td / "TwapObs.tla").write_text(twap_obs_module([((r["token"], tuple(win)), g)]))
         res = tlc.run(td / "Trace_SqueethTwap.tla", td / "Trace_SqueethTwap.cfg", chk.tmp, workers=1, timeout=600)
-        if '<<"twap_bad", {}, 1>>' not in res.output:
+        if not re.search(r'<<\s*"twap_bad",\s*\{\s*\},\s*1\s*>>', res.output):
             chk.violation(f"SqueethMarket.get_twap_price|twap_relational|window_{len(win)}", f"TWAP {float(g)!r} for window {win}", r)
         return chk.finish("replay of one TWAP observation")
     states = unjson(r["states"])
